@@ -3,6 +3,7 @@
 -/
 import PsProofs.IterRun
 import PsProofs.Wheel
+import PsProofs.PreSieve
 import Mathlib.Tactic.NormNum.Prime
 import Mathlib.Tactic.IntervalCases
 
@@ -123,6 +124,21 @@ theorem C01_first_multiple (stop p L : Nat) (hp : Nat.gcd (p % 30) 30 = 1) (hp0 
     exact addSievingPrime30_denotes stop p L hp hp0 hL hnw
       (Nat.lt_of_le_of_lt (Nat.mul_le_mul_left p (by omega)) hnw2) hstop s h
   · exact addSievingPrime210_denotes stop p L hp hp0 hL hnw hnw2 hstop s
+
+/-- **C01 (pre-sieve)** all 16 tables of PreSieveTables.hpp (126 330 bytes, regenerated on every run and compared byte
+    for byte by the kernel with the table their prime group defines) ANDed the way
+    PreSieve::preSieve combines them: for every segment start L ≡ 0 (mod 30), byte offset o and bit
+    b, the pre-sieved bit is 1 iff NO prime from 7 to 163 divides the number L + 30·o + offs[b] -/
+theorem C01_presieve_exact (L o b : Nat) (hL : L % 30 = 0) (hb : b < 8) :
+    (PreSieve.preSieveByte PreSieve.allTables L o).testBit b = true ↔
+      ∀ p, Nat.Prime p → 7 ≤ p → p ≤ 163 → ¬ p ∣ (L + 30 * o + PreSieve.offs.getD b 0) :=
+  PreSieve.preSieve_bit_iff L o b hL hb
+
+/-- **C01 (source lock)** the model of Wheel::addSievingPrime was written for exactly this text (regenerated,
+    whitespace-normalised, on every run) -/
+theorem C01_wheel_source : Gen.addSievingPrimeText =
+    "ASSERT(segmentLow % 30 == 0); segmentLow += 6; uint64_t quotient = (segmentLow / prime) + 1; quotient = std::max(prime, quotient); uint64_t multiple = prime * quotient; if (multiple > stop_ || multiple < segmentLow) return; uint64_t nextMultipleFactor = INIT[quotient % MODULO].nextMultipleFactor; uint64_t nextMultiple = prime * nextMultipleFactor; if (nextMultiple > stop_ - multiple) return; multiple += nextMultiple; #if defined(ENABLE_ASSERT) if (MODULO >= 2) ASSERT(multiple % 2 != 0); if (MODULO >= 6) ASSERT(multiple % 3 != 0); if (MODULO >= 30) ASSERT(multiple % 5 != 0); if (MODULO >= 210) ASSERT(multiple % 7 != 0); if (MODULO >= 2310) ASSERT(multiple % 11 != 0); #endif uint64_t multipleIndex = (multiple - segmentLow) / 30; uint64_t wheelIndex = wheelOffsets_[prime % 30] + INIT[quotient % MODULO].wheelIndex; storeSievingPrime(prime, multipleIndex, wheelIndex);" :=
+  rfl
 
 /-- non-vacuity: the prime 7 at segment 0 starts at 7·7 = 49 = 0 + 30·1 + 19 (bit 4), wheel index 1 -/
 example : addSievingPrime 30 8 Gen.wheel30Init 1000 7 0 = some ⟨0, 1, 1⟩ ∧
